@@ -63,7 +63,13 @@ class Timeline:
 def run_path_c02(menu, path, is_leaf, inv_props=()):
     """Execute `path` from scratch; report violations of its last call only."""
     w = worlds.world(menu["world"])
-    tracks = explore.rebuild(w, menu["seed"], [])
+    try:
+        tracks = explore.rebuild(w, menu["seed"], [])
+    except events.Hang:
+        raise
+    except Exception as e:  # noqa: BLE001
+        # the configuration of the menu cannot even be built: reported once (empty path only)
+        return True, ([_vio("C02", "construct-raises", f"{type(e).__name__}: {e}", menu, [])] if len(path) <= 1 else []), ""
     tl = Timeline(canon.observe(tracks))
     vio = []
     dead = False
@@ -164,7 +170,13 @@ def run_path_c10(menu, path, is_leaf, alias=None):
     """alias: {clause: property id} - report a clause under another property (the value
     oracles of C08 / C09 are re-used for histories that switch features on and off)"""
     w = worlds.world(menu["world"])
-    tracks = explore.rebuild(w, menu["seed"], [])
+    try:
+        tracks = explore.rebuild(w, menu["seed"], [])
+    except events.Hang:
+        raise
+    except Exception as e:  # noqa: BLE001
+        p0 = (alias or {}).get("construct-raises", "C10")
+        return True, ([globals()["_vio"](p0, "construct-raises", f"{type(e).__name__}: {e}", menu, [], ctx="plain")] if len(path) <= 1 else []), ""
     ann_keys = set(tracks.annotators.all_features)
     enabled = set(tracks.annotators.features)
     static = set(tracks.features) - ann_keys
